@@ -255,12 +255,14 @@ func (x *ngen) cond(depth int, hdr []col) *cond {
 		return &cond{op: "isnull", neg: g.Intn(2) == 0, e: []expr{x.named(hdr)}}
 	case r < 82:
 		return &cond{op: "btw", neg: g.Intn(3) == 0, e: []expr{x.named(hdr), x.operand(hdr), x.operand(hdr)}}
-	case r < 95:
+	case r < 91:
 		c := &cond{op: "in", neg: g.Intn(3) == 0, e: []expr{x.named(hdr)}}
 		for i, n := 0, 1+g.Intn(3); i < n; i++ {
 			c.lits = append(c.lits, x.lits[g.Intn(len(x.lits))])
 		}
 		return c
+	case r < 96:
+		return &cond{op: "like", neg: g.Intn(3) == 0, e: []expr{x.named(hdr), {lit: likePatternFrom(g, x.lits)}}}
 	}
 	return &cond{op: "truth", e: []expr{x.named(hdr)}}
 }
